@@ -2,3 +2,11 @@
 vstr *x__ZNSt7__cxx1112basic_stringIcSt11char_traitsIcESaIcEEpLEc(vstr *s, uint8_t c) { return x__ZNSt7__cxx1112basic_stringIcSt11char_traitsIcESaIcEE6appendEPKcm(s, &c, 1); }
 /* std::string::rbegin(): reverse_iterator{ current = end() } (bound as a stub so that the numbered IR type name does not matter) */
 void st_str_rbegin(void *res, void *s) { *(uint8_t**)res = VS_P((vstr*)s) + VS_N((vstr*)s); }
+/* find_last_of(const char *set, size_t pos): last position <= pos holding a character of the C string set, else npos */
+uint64_t x__ZNKSt7__cxx1112basic_stringIcSt11char_traitsIcESaIcEE12find_last_ofEPKcm(vstr *s, uint8_t *set, uint64_t pos)
+{
+  uint64_t n = VS_N(s); if (n == 0) return (uint64_t)-1;
+  uint64_t i = pos < n - 1 ? pos : n - 1;
+  for (;;) { for (uint64_t k = 0; set[k]; k++) if (VS_P(s)[i] == set[k]) return i; if (i == 0) break; i--; }
+  return (uint64_t)-1;
+}
